@@ -43,16 +43,16 @@ inline R spxAbs(R a) { return a < 0 ? -a : a; }
 inline R maxAbs(R a, R b) { const R absa = spxAbs(a); const R absb = spxAbs(b); return absa > absb ? absa : absb; }
 
 /* `throw X(...)` inside a slice becomes `(void) X(...)`: the constructor of the exception stub decides.
- *  - SPxInternalCodeException ("This should never happen"): an obligation - unreachable under the
- *    contract's precondition;
- *  - SPxException: allowed exactly where the contract says so (ghost g_may_throw, fixed by `requires`);
- *    a path that throws ends there (no postcondition is promised for it). */
+ *  The ghost g_may_throw (fixed by each contract's `requires`, 0 if the contract does not mention it... see
+ *  contract.c) says which throws the contract allows: bit 0 = SPxException, bit 1 = SPxInternalCodeException
+ *  ("This should never happen").  A throw that is not allowed is a failed obligation; a path that throws ends
+ *  there (no postcondition is promised for it). */
 extern "C" { extern int g_may_throw; }
 struct SPxInternalCodeException
 {
    SPxInternalCodeException(const char*)
    {
-      __CPROVER_assert(0, "SPxInternalCodeException is never thrown under the precondition");
+      __CPROVER_assert((g_may_throw & 2) != 0, "SPxInternalCodeException is thrown only where the contract allows it");
       __CPROVER_assume(0);
    }
 };
@@ -60,7 +60,7 @@ struct SPxException
 {
    SPxException(const char*)
    {
-      __CPROVER_assert(g_may_throw != 0, "SPxException is thrown only where the contract allows it");
+      __CPROVER_assert((g_may_throw & 1) != 0, "SPxException is thrown only where the contract allows it");
       __CPROVER_assume(0);
    }
 };
